@@ -995,7 +995,7 @@ bool IGXMLScanner::normalizeAttValue( const   XMLAttDef* const    attDef
     XMLCh nextCh;
     const XMLCh* srcPtr = value;
 
-    if (type == XMLAttDef::CData || type > XMLAttDef::Notation) {
+    if (type == XMLAttDef::CData || type > XMLAttDef::Enumeration) {
         //  Get the next character from the source. We have to watch for
         //  escaped characters (which are indicated by a 0xFFFF value followed
         //  by the char that was escaped.)
